@@ -318,13 +318,15 @@ func c19Judge(op int, ex *c19Exact, r *c19Res) (vs []c19Violation, resR *big.Rat
 }
 
 // c19FollowUps runs operations on a freshly returned result that would write
-// through a shared coefficient array if the implementation mutated in place.
-// It returns the name of a follow-up that panicked ("" if none).
-func c19FollowUps(res rmath.Dec, resR *big.Rat) (panicked string, msg string) {
+// through a shared coefficient array if the implementation mutated in place,
+// and judges the integer conversions of the result on the way (BigInt: exact
+// integer iff integral; SdkIntTrim: truncation toward zero). The class of a
+// returned violation is a complete finding kind.
+func c19FollowUps(res rmath.Dec, resR *big.Rat) (vs []c19Violation) {
 	name := ""
 	defer func() {
 		if p := recover(); p != nil {
-			panicked, msg = name, fmt.Sprint(p)
+			vs = append(vs, c19Violation{"C19/" + name + "/panic", fmt.Sprintf("%s on the value %s panicked: %v", name, c19RatText(resR), p)})
 		}
 	}()
 	name = "Add"
@@ -335,16 +337,29 @@ func c19FollowUps(res rmath.Dec, resR *big.Rat) (panicked string, msg string) {
 	red, _ := res.Reduce()
 	_ = red
 	name = "BigInt"
-	bi, _ := res.BigInt()
+	bi, err := res.BigInt()
+	if resR != nil {
+		switch {
+		case resR.IsInt() && err != nil:
+			vs = append(vs, c19Violation{"C19/BigInt/error-for-integer", fmt.Sprintf("BigInt of the integral value %s (rendered %s): %v", c19RatText(resR), res.String(), err)})
+		case resR.IsInt() && bi.Cmp(resR.Num()) != 0:
+			vs = append(vs, c19Violation{"C19/BigInt/wrong-integer", fmt.Sprintf("BigInt of %s (rendered %s) returned %s", c19RatText(resR), res.String(), bi)})
+		case !resR.IsInt() && err == nil:
+			vs = append(vs, c19Violation{"C19/BigInt/non-integral-without-error", fmt.Sprintf("BigInt of the non-integral value %s returned %s", c19RatText(resR), bi)})
+		}
+	}
 	c19ScribbleInt(bi)
 	if resR != nil && c19FitsSdkInt(resR) {
 		name = "SdkIntTrim"
 		si := res.SdkIntTrim()
+		if want := c19Trunc(resR); si.BigIntMut().Cmp(want) != 0 {
+			vs = append(vs, c19Violation{"C19/SdkIntTrim/not-truncation-toward-zero", fmt.Sprintf("SdkIntTrim of %s (rendered %s) returned %s, truncation toward zero is %s", c19RatText(resR), res.String(), si.BigIntMut(), want)})
+		}
 		c19ScribbleInt(si.BigIntMut())
 	}
 	name = "String"
 	_ = res.String()
-	return "", ""
+	return vs
 }
 
 // ---------------------------------------------------------------------------
